@@ -1,4 +1,5 @@
 import QuillModel.Backend.ConsProofsReclaim
+import QuillModel.Backend.ConsProofsUnplaced
 import QuillModel.Props.C03
 /-!
 # C08 — dropping queue: a statement is delivered intact or reported dropped; the counts add up
@@ -99,6 +100,58 @@ theorem C08_log_call_outcome (s : BSt) (hd : s.cfg.dropping = true) (a : Nat) (s
        ctrs (enqFlow s a st 0 true).1 =
          updAt (ctrs (ensureCtx s a).1) (ensureCtx s a).2 (fun c => (c.1 + 1, c.2.1 + 1, c.2.2))) :=
   enqFlow_log_outcome s hd a st hk
+
+/-! ### never both: a discarded statement is never written -/
+
+/-- **A refused log call leaves its id carried by nothing.** An ordinary log call (`LOG_DYNAMIC`, the call that
+    returns the bool) by an idle live actor through a valid logger, whose level passes, not parked by a stall, on a
+    dropping queue: if the reservation fails (the `ret=0` outcome of `C08_log_call_outcome`), then after the call its id
+    `s.nextId` is *unplaced* — below the new `nextId`, and no statement with that id is in any accepted history or
+    parked call (`tot … = 0`). -/
+theorem C08_dropped_call_id_unplaced (s : BSt) (hb : InvB s) (hd : s.cfg.dropping = true) (a g lvl len lgi : Nat)
+    (hlg : loggerOf s g = some lgi) (hidle : idleActor s a = true) (hlvl : shouldLog lvl (s.lgOf lgi).level = true)
+    (hns : ((s.actor a).map (·.stallArmed)).getD false = false)
+    (hf : ∀ st : Stmt, st.kind = .log → st.id = s.nextId → st.size = stmtSize s.cfg .log s.nextId len true (s.lgOf lgi).gid →
+      (tryEnq (ensureCtx { s with nextId := s.nextId + 1 } a).1 (ensureCtx { s with nextId := s.nextId + 1 } a).2 st).2 = false) :
+    Unplaced (applyFront s (.log a g lvl len true)).1 s.nextId := by
+  have e1 : applyFront s (.log a g lvl len true) =
+      noteCall (frontCall { s with nextId := s.nextId + 1 } a lgi .log lvl len 0 true s.nextId) a g := by
+    simp only [applyFront]
+    rw [withLogger_eq s a g lgi _ hlg hidle]
+    have : shouldLog lvl (({ s with nextId := s.nextId + 1 } : BSt).lgOf lgi).level = true := hlvl
+    rw [if_pos this]; rfl
+  rw [e1]
+  apply Unplaced.noteCall
+  rw [frontCall_eq_enqFlow ({ s with nextId := s.nextId + 1 } : BSt) a lgi .log lvl len 0 true s.nextId false hns]
+  exact enqFlow_dropped_unplaced (hb.toφ.room_fresh a _ rfl) hd rfl 0 (Or.inl rfl) true true (hf _ rfl rfl rfl)
+
+/-- the same for a call that was stalled after reading its timestamp and is resumed: if the reservation then fails,
+    the id it was given is unplaced afterwards -/
+theorem C08_dropped_stalled_call_id_unplaced (s : BSt) (hb : InvB s) (hd : s.cfg.dropping = true) (a : Nat) (x : Actor)
+    (st : Stmt) (cont : Nat) (hx : s.actor a = some x) (hp : x.pend = .stall st cont) (hk : isLogKind st.kind = true)
+    (hc : cont = 0 ∨ cont = 5) (hf : (tryEnq (ensureCtx s a).1 (ensureCtx s a).2 st).2 = false) :
+    Unplaced (resume s a).1 st.id := by
+  have e : resume s a = enqFlow s a st cont true false := by
+    unfold Backend.resume; simp [hx, hp]
+  rw [e]
+  exact enqFlow_dropped_unplaced (hb.toφ.room_parked a x hx st st (by simp [hp, pendL]) (fun _ => rfl)) hd hk cont hc
+    true false hf
+
+/-- **An unplaced id stays unplaced**: ids are allocated once (`nextId` only grows) and a statement object only ever
+    moves from a parked call into one accepted history — so an id that nothing carries is never carried again,
+    whatever the schedule. -/
+theorem C08_unplaced_forever (s : BSt) (hb : InvB s) (id : Nat) (u : Unplaced s id) (ops : List Op) :
+    Unplaced (runOps s ops) id := Unplaced.run hb u ops
+
+/-- **Delivered XOR reported dropped.** From any state satisfying the invariants (every reachable state), an id that
+    is unplaced — in particular the id of a call that returned `false` (two theorems above), whose drop is counted in
+    `discarded` and reported (`C08_dropped_equals_reported_plus_pending`) — has no ordinary `write` event at any sink in
+    the whole history, now and after every further schedule. Conversely a call that returned `true` put its statement
+    into an accepted history (`C08_log_call_outcome`), from where C03 delivers it at most once per sink and never
+    counts it as dropped (`ctrs` unchanged). -/
+theorem C08_discarded_never_written (s : BSt) (h : Inv s) (id : Nat) (u : Unplaced s id) (ops : List Op) (sid : Nat) :
+    wcount (runOps s ops).log sid id = 0 :=
+  h.unplaced_never_written id u ops sid
 
 /-- **Control requests are never discarded and never counted.** A flush / backtrace-init / backtrace-flush /
     logger-removal request (not an `Event::Log`; `cont ∈ {1,2,3,4}`) on a dropping queue touches no counter at all,
@@ -234,5 +287,11 @@ example :
     (applyOp (runOps (c08Init true true) (f17Sched.take 2)) (.front (.log 1 0 4 300 true))).2 = "id=0 ret=1 ev=1 bytes=338" ∧
     (applyOp (runOps (c08Init true true) (f17Sched.take 3)) (.front (.log 1 0 4 300 true))).2 = "id=1 ret=0 ev=1 bytes=0" := by
   decide
+
+/-- non-vacuity of the never-both theorems: in the F17 schedule the second call (id 1) was refused; its id is unplaced
+    and unwritten at the end, while id 0 was accepted and written once -/
+example : tot (runOps (c08Init true true) f17Sched) 1 = 0 ∧ 1 < (runOps (c08Init true true) f17Sched).nextId ∧
+    wcount (runOps (c08Init true true) f17Sched).log 0 1 = 0 ∧ tot (runOps (c08Init true true) f17Sched) 0 = 1 ∧
+    wcount (runOps (c08Init true true) f17Sched).log 0 0 = 1 := by decide
 
 end Backend
